@@ -308,6 +308,9 @@ func (fm *FieldMask) PathInMask(desc *thrift_reflection.TypeDescriptor, path str
 
 // getPathAncestor tells if a given path is in current fieldmask, and return the nearest settled ancestor (include itself)
 func (cur *FieldMask) GetPath(desc *thrift_reflection.TypeDescriptor, path string) (*FieldMask, bool) {
+	// follow typedefs exactly as addPath does, otherwise a path through a
+	// typedef'd type that the mask was built from is not found in it
+	desc = unwrapDesc(desc)
 	it := newPathIter(path)
 	// println("[PathInMask]")
 	last := cur
@@ -380,7 +383,7 @@ func (cur *FieldMask) GetPath(desc *thrift_reflection.TypeDescriptor, path strin
 			}
 
 			// deep to next desc
-			desc = f.GetType()
+			desc = unwrapDesc(f.GetType())
 			if desc == nil {
 				return nil, false
 			}
@@ -393,7 +396,7 @@ func (cur *FieldMask) GetPath(desc *thrift_reflection.TypeDescriptor, path strin
 			if !desc.IsList() {
 				return nil, false
 			}
-			et := desc.GetValueType()
+			et := unwrapDesc(desc.GetValueType())
 			if et == nil {
 				return nil, false
 			}
@@ -444,11 +447,11 @@ func (cur *FieldMask) GetPath(desc *thrift_reflection.TypeDescriptor, path strin
 			if !desc.IsMap() {
 				return nil, false
 			}
-			et := desc.GetValueType()
+			et := unwrapDesc(desc.GetValueType())
 			if et == nil {
 				return nil, false
 			}
-			kt := desc.GetKeyType()
+			kt := unwrapDesc(desc.GetKeyType())
 			if kt == nil {
 				return nil, false
 			}
